@@ -65,6 +65,7 @@ class Hooks(object):
 
     widen_on_entry = False
     widen_keep_same = True
+    split_sign = True
 
     def on_store(self, I, st, inst, ptr, value, nbytes):
         pass
@@ -458,9 +459,16 @@ class Interp(object):
 
     def assume(self, st, cond, truth=True):
         """Refine st with cond == truth; returns False if infeasible."""
+        if not self._assume(st, cond, truth):
+            return False
+        if st.flags.get('strlinks'):
+            return self.apply_links(st)
+        return True
+
+    def _assume(self, st, cond, truth=True):
         k = cond[0]
         if k == 'not':
-            return self.assume(st, cond[1], not truth)
+            return self._assume(st, cond[1], not truth)
         if k == 'const':
             return cond[1] == truth
         if k == 'nz':
@@ -627,7 +635,9 @@ class Interp(object):
         if lo_ok is False or hi_ok is False:
             st.ev('oob', inst, kind, p, n, o.size)
             return 'oob'
-        st.ev('oob?', inst, kind, p, n, o.size)
+        # the witness is searched in the state at the time of the access (later facts may depend on the value read)
+        env = st.find_model([p.off + n - o.size, p.off], lambda v: v[0] > 0 or v[1] < 0)
+        st.ev('oob?', inst, kind, p, n, o.size, env)
         return 'undecided'
 
     def load(self, st, inst, p, ty, nbytes):
@@ -683,12 +693,12 @@ class Interp(object):
                 return self.fresh_for_type(st, ty, 'cpy')
             # may overlap an unknown write
             return self.fresh_for_type(st, ty, 'ld')
-        if not off.t:
+        if not off.t and o.attrs.get('cstr_len') is None:
             if o.lazy or o.kind in ('param', 'ext', 'global'):
                 v = self.lazy_value(st, p.obj, off.c, ty, nbytes)
                 o.cells[off.c] = (nbytes, v)
                 return v
-            if o.kind in ('alloca', 'heap'):
+            if o.kind in ('alloca', 'heap') and o.attrs.get('cstr_len') is None:
                 st.ev('uninit-read', inst, p.obj, off)
                 v = self.fresh_for_type(st, ty, 'uninit')
                 return v
@@ -698,8 +708,37 @@ class Interp(object):
             a = ('load', p.obj, off, o.version, b)
             if a not in st.rng:
                 st.rng[a] = (0, (1 << b) - 1)
+            L = o.attrs.get('cstr_len')
+            if L is not None and nbytes == o.attrs.get('cstr_eb', 1):
+                links = st.flags.setdefault('strlinks', [])
+                if not any(x[0] == a for x in links):
+                    st.flags['strlinks'] = links + [(a, off, L)]
+                self.apply_links(st)
             return IntV(b, Lin.atom(a), 'u')
         return self.fresh_for_type(st, ty, 'ld')
+
+    def apply_links(self, st):
+        """NUL-terminated text: unit at offset o is zero iff o == len (o <= len is the bounds obligation)."""
+        links = st.flags.get('strlinks')
+        if not links:
+            return True
+        for (a, off, L) in links:
+            lo, hi = st.arange(a)
+            d = L - off                       # >= 0 when in bounds
+            if lo > 0 or (Lin.atom(a) in st.nefacts):
+                if st.is_ge0(d - 1) is not True:
+                    if not st.assume_ge0(d - 1):
+                        return False
+            elif hi == 0:
+                if st.is_eq0(d) is not True:
+                    if not st.assume_eq0(d):
+                        return False
+            else:
+                if st.is_ge0(d - 1) is True:
+                    st.rng[a] = (max(lo, 1), hi)
+                elif st.is_eq0(d) is True:
+                    st.rng[a] = (0, 0)
+        return True
 
     def lazy_value(self, st, oid, off, ty, nbytes):
         b = int_bits(ty)
@@ -811,7 +850,7 @@ class Interp(object):
         """Explore all paths from st; returns list of Outcome.  Restarts when a candidate loop
         invariant fails (Houdini), so every invariant assumed in the result has been verified."""
         base = st
-        for attempt in range(8):
+        for attempt in range(32):
             self.inv_failed = set()
             outs = self._explore(base.clone())
             if not self.inv_failed:
@@ -906,32 +945,133 @@ class Interp(object):
         return None
 
     # ---- widening: loop-carried slots are header phis and memory cells written inside the loop
+    def root_ptrs(self, st, fr, op, body, depth=0, seen=None):
+        """Pointer values an address operand may be based on, resolving values defined inside the loop back to
+        values available at the loop header.  Returns (list of (PtrV, exact?)) or None when unknown."""
+        fn = fr.fn
+        if depth > 12:
+            return None
+        if seen is None:
+            seen = set()
+        if op[0] == 'v':
+            if op[1] in seen:
+                return []           # cycle through a loop phi: no new roots
+            seen = seen | {op[1]}
+        if op[0] != 'v' or not self.defined_in(fn, op, body):
+            try:
+                v = self.val(st, op)
+            except Unmodelled:
+                return None
+            return [(v, True)] if isinstance(v, PtrV) else ([] if not isinstance(v, TopV) else None)
+        i = fn.inst(op[1])
+        if i.op == 'getelementptr':
+            r = self.root_ptrs(st, fr, i.d['base'], body, depth + 1, seen)
+            if r is None:
+                return None
+            off = i.d.get('off')
+            out = []
+            for (p, ex) in r:
+                if ex and off is not None and p.obj is not None:
+                    out.append((PtrV(p.obj, p.off + off, p.nz), True))
+                else:
+                    out.append((p, False))
+            return out
+        if i.op in ('bitcast', 'addrspacecast'):
+            return self.root_ptrs(st, fr, i.a[0], body, depth + 1, seen)
+        if i.op == 'load':
+            r = self.root_ptrs(st, fr, i.a[0], body, depth + 1, seen)
+            if r is None:
+                return None
+            out = []
+            for (p, ex) in r:
+                o = st.objs.get(p.obj) if p.obj is not None else None
+                if o is None:
+                    return None
+                got = False
+                if ex and not p.off.t:
+                    c = o.cells.get(p.off.c)
+                    if c is not None and isinstance(c[1], PtrV):
+                        out.append((c[1], False))
+                        got = True
+                if not got:
+                    ptrs = [c[1] for c in o.cells.values() if isinstance(c[1], PtrV)]
+                    if not ptrs and not o.lazy:
+                        return None
+                    if o.lazy and not ptrs:
+                        return None
+                    out += [(q, False) for q in ptrs]
+            return out
+        if i.op == 'phi':
+            out = []
+            for (v, b) in i.d['inc']:
+                r = self.root_ptrs(st, fr, v, body, depth + 1, seen)
+                if r is None:
+                    return None
+                out += r
+            return out
+        if i.op == 'select':
+            out = []
+            for v in i.a[1:]:
+                r = self.root_ptrs(st, fr, v, body, depth + 1, seen)
+                if r is None:
+                    return None
+                out += r
+            return out
+        if i.op in ('call', 'invoke'):
+            # pointer-returning call inside the loop: based on one of its pointer arguments (or fresh memory)
+            out = []
+            for a in i.a:
+                r = self.root_ptrs(st, fr, a, body, depth + 1, seen)
+                if r:
+                    out += [(p, False) for (p, ex) in r]
+            return out
+        return None
+
     def loop_written_cells(self, st, fr, body):
-        """(cells, objects): constant cells / whole objects that stores or calls inside the loop may write."""
+        """(cells, objects): constant cells / whole objects that stores or calls inside the loop may write.
+        objects is None when some store address cannot be resolved (everything is then havoc'd)."""
         fn = fr.fn
         cells, objs = [], []
+        unknown = False
         for b in body:
             for i in fn.blocks[b].insts:
                 if i.op == 'store':
-                    try:
-                        p = self.val(st, i.a[1])
-                    except Unmodelled:
-                        p = None
-                    if isinstance(p, PtrV) and p.obj is not None and p.obj in st.objs:
-                        if not p.off.t and not self.defined_in(fn, i.a[1], body):
+                    r = self.root_ptrs(st, fr, i.a[1], body)
+                    if r is None:
+                        unknown = True
+                        continue
+                    for (p, ex) in r:
+                        if p.obj is None or p.obj not in st.objs:
+                            continue
+                        if ex and not p.off.t:
                             cells.append((p.obj, p.off.c, i.d.get('size', 8)))
                         else:
                             objs.append(p.obj)
                 elif i.op in ('call', 'invoke'):
                     for j in self.call_write_args(i):
                         if j < len(i.a):
-                            try:
-                                p = self.val(st, i.a[j])
-                            except Unmodelled:
+                            r = self.root_ptrs(st, fr, i.a[j], body)
+                            if r is None:
+                                if i.a[j][0] in ('v',) and is_ptr(self.operand_type(fn, i.a[j])):
+                                    unknown = True
                                 continue
-                            if isinstance(p, PtrV) and p.obj is not None and p.obj in st.objs:
-                                objs.append(p.obj)
+                            for (p, ex) in r:
+                                if p.obj is not None and p.obj in st.objs:
+                                    objs.append(p.obj)
+        if unknown:
+            st.ev('widen-unknown-store', fn.name)
+            for oid, o in st.objs.items():
+                if o.kind in ('ext', 'param', 'owner', 'heap', 'alloca') and oid not in objs:
+                    objs.append(oid)
         return cells, objs
+
+    def operand_type(self, fn, op):
+        if op[0] != 'v':
+            return ''
+        if op[1] < fn.nargs:
+            return fn.params[op[1]]['ty']
+        i = fn.inst(op[1])
+        return i.ty if i is not None else ''
 
     def carried_slots(self, st, fr, header, phis, newvals):
         """List of (key, current value, setter) for every loop-carried scalar."""
@@ -957,7 +1097,9 @@ class Interp(object):
             whole.append(oid)
             o = st.objs[oid]
             # small scalar objects (locals passed by reference) are carried cell by cell; anything else is havoc'd
-            if o.kind == 'alloca' and not o.regions and o.cells and o.size is not None and not o.size.t and o.size.c <= 64:
+            small = o.size is not None and not o.size.t and o.size.c <= 64
+            if o.kind in ('alloca', 'ext', 'param', 'owner') and not o.regions and o.cells and len(o.cells) <= 8 and \
+                    (small or o.kind != 'alloca'):
                 for off, (sz, v) in sorted(o.cells.items()):
                     if (oid, off) not in seen and isinstance(v, (IntV, PtrV)):
                         seen.add((oid, off))
@@ -991,6 +1133,7 @@ class Interp(object):
             self.havoc_obj(st, oid, 'loop')
         guards = entry.get('__guards__', ())
         begin = {}
+        orig_vals = {}
         for (key, nv, ty) in slots:
             name = self.slot_name(key)
             ev = entry.get(name, nv if self.h.widen_on_entry else None)
@@ -1045,20 +1188,35 @@ class Interp(object):
                             used.append((name, rel, ev))
                         else:
                             self.inv_disabled.add(k2)
+                tobj = st.objs.get(nv.obj)
+                Lc = tobj.attrs.get('cstr_len') if tobj is not None else None
+                if Lc is not None:
+                    # NUL-terminated text: cursor at or before the terminator / strictly before it
+                    for rel, kk in (('cstr_lt', 1), ('cstr_le', 0)):
+                        k2 = key0 + (name, rel)
+                        if k2 in self.inv_disabled:
+                            continue
+                        if st.is_ge0(Lc - nv.off - kk) is True:
+                            st.assume_ge0(Lc - woff - kk)
+                            used.append((name, rel, PtrV(nv.obj, Lc - kk)))
+                        else:
+                            self.inv_disabled.add(k2)
                 pguards = [T for T in guards if isinstance(T, tuple) and T[0] == nv.obj]
                 for v2 in list(fr.regs.values()):
                     if isinstance(v2, PtrV) and v2.obj == nv.obj and v2 is not nv and (v2.obj, v2.off) not in pguards and len(pguards) < 6:
                         if v2.off != nv.off:
                             pguards.append((v2.obj, v2.off))
                 for gi, T in enumerate(pguards):
-                    k2 = key0 + (name, 'pg%s' % (T[1],))
+                    k2 = key0 + (name, 'pg' + re.sub(r'#\d+', '#', repr(T[1])))
                     if k2 in self.inv_disabled:
                         continue
                     if st.is_ge0(T[1] - nv.off) is True:
                         st.assume_ge0(T[1] - woff)
-                        used.append((name, 'pg%s' % (T[1],), PtrV(nv.obj, T[1])))
+                        used.append((name, 'pg' + re.sub(r'#\d+', '#', repr(T[1])), PtrV(nv.obj, T[1])))
                     else:
                         self.inv_disabled.add(k2)
+            elif isinstance(nv, PtrV):
+                w = self.fresh_ptr(st, 'w', maynull=True)
             else:
                 w = self.fresh_for_type(st, ty or 'i64', 'w')
             if key[0] == 'phi':
@@ -1068,6 +1226,22 @@ class Interp(object):
                 o.cells[key[2]] = (key[3], w)
                 o.version += 1
             begin[name] = w
+            orig_vals[name] = nv
+        # pairwise ordering of carried cursors into the same object
+        pnames = [n2 for n2 in begin if isinstance(begin[n2], PtrV) and begin[n2].obj is not None and isinstance(orig_vals[n2], PtrV)
+                  and not any(u[0] == n2 and u[1] == 'same' for u in used)]
+        for a1 in pnames:
+            for a2 in pnames:
+                if a1 == a2 or begin[a1].obj != begin[a2].obj or orig_vals[a1].obj != orig_vals[a2].obj:
+                    continue
+                k2 = key0 + (a1, 'ord', a2)
+                if k2 in self.inv_disabled:
+                    continue
+                if st.is_ge0(orig_vals[a2].off - orig_vals[a1].off) is True:
+                    st.assume_ge0(begin[a2].off - begin[a1].off)
+                    used.append((a1, ('ord', a2), None))
+                else:
+                    self.inv_disabled.add(k2)
         st.flags['wbegin:' + fn.name] = begin
         extra = self.h.loop_candidates(self, st, fn, header, phis)
         for (name, lin) in extra:
@@ -1123,7 +1297,12 @@ class Interp(object):
                     newvals[i.id] = self.val(st, v)
         for (name, rel, ev) in rec[3]:
             key = (fn.name, header, name, rel)
-            if rel == 'x':
+            if isinstance(rel, tuple) and rel[0] == 'ord':
+                key = (fn.name, header, name, 'ord', rel[1])
+                v1 = self.slot_value(st, fr, name, newvals)
+                v2 = self.slot_value(st, fr, rel[1], newvals)
+                ok = isinstance(v1, PtrV) and isinstance(v2, PtrV) and v1.obj == v2.obj and st.is_ge0(v2.off - v1.off) is True
+            elif rel == 'x':
                 saved = dict((k, fr.regs.get(k)) for k in newvals)
                 fr.regs.update(newvals)
                 ok = st.is_ge0(ev(st, fr)) is True
@@ -1286,7 +1465,25 @@ class Interp(object):
         if op == 'icmp':
             a = self.val(st, inst.a[0])
             b = self.val(st, inst.a[1])
-            regs[inst.id] = self.icmp(st, inst.d['pred'], a, b)
+            pred = inst.d['pred']
+            if pred[0] == 'u' and self.h.split_sign and isinstance(a, IntV) and isinstance(b, IntV):
+                # unsigned comparison of a value only known in signed form whose range straddles zero: split on its sign
+                for x, which in ((a, 0), (b, 1)):
+                    if x.kind == 's' and x.lin.t and self.ulin(st, x) is None:
+                        s2 = self.fork(st)
+                        if s2.assume_ge0(-x.lin - 1):
+                            nx = IntV(x.bits, x.lin + (1 << x.bits), 'u')
+                            aa, bb = (nx, b) if which == 0 else (a, nx)
+                            s2.frames[-1].regs[inst.id] = self.icmp(s2, pred, aa, bb)
+                            self.work.append(s2)
+                        if not st.assume_ge0(x.lin):
+                            return 'end'
+                        nx = IntV(x.bits, x.lin, 'u')
+                        if which == 0:
+                            a = nx
+                        else:
+                            b = nx
+            regs[inst.id] = self.icmp(st, pred, a, b)
             return None
         if op == 'phi':
             raise Unmodelled('phi in the middle of a block')
@@ -1320,6 +1517,19 @@ class Interp(object):
             return None
         if op in ('zext', 'sext', 'trunc'):
             a = self.val(st, inst.a[0])
+            if op == 'sext' and isinstance(a, IntV) and a.kind == 'u' and a.bits <= 16 and a.lin.t and \
+                    self.slin(st, a) is None and self.cond_of(st, a) is None and self.h.split_sign:
+                # sign split: keeps the linear relation between the unit and its sign-extended value
+                half = 1 << (a.bits - 1)
+                bits = int_bits(inst.ty) or 32
+                s2 = self.fork(st)
+                if s2.assume_ge0(a.lin - half) and self.apply_links(s2):
+                    s2.frames[-1].regs[inst.id] = IntV(bits, a.lin - (1 << a.bits), 's')
+                    self.work.append(s2)
+                if st.assume_ge0(Lin.const(half - 1) - a.lin) and self.apply_links(st):
+                    regs[inst.id] = IntV(bits, a.lin, 's')
+                    return None
+                return 'end'
             regs[inst.id] = self.cast(st, inst, op, a)
             return None
         if op == 'ptrtoint':
@@ -1890,6 +2100,8 @@ class Interp(object):
             n = self.as_u(st, args[2]).scale(k) if isinstance(args[2], IntV) else None
             self.fill(st, inst, args[0], args[1], n)
             return [(st, args[0])]
+        if name in ('strtol', 'strtoul', 'strtoll', 'strtoull', 'strtod', 'strtof', 'strtold'):
+            return self.model_strto(st, inst, name, args)
         if name == 'abs' or name == 'labs' or name == 'llabs':
             st.ev('abs', inst, args[0])
             return [(st, self.fresh_int(st, int_bits(inst.ty) or 32, 'abs', signed=True))]
@@ -1901,6 +2113,39 @@ class Interp(object):
         st.ev('throw', tname)
         r = self.unwind(st, pop_current=False)
         return 'end' if r == 'end' else 'cont'
+
+    def model_strto(self, st, inst, name, args):
+        """strto*(s, &end[, base]): reads the C string at s up to (at most) its NUL; *end = s + j, j >= 0."""
+        s_, endp = args[0], args[1]
+        st.ev('strto', inst, name, s_)
+        j = self.fresh('j')
+        st.rng[j] = (0, MAXLEN)
+        if isinstance(s_, PtrV) and s_.obj is not None:
+            if self.ptr_nullness(st, s_) is not False:
+                st.ev('maybe-null', inst, name, s_)
+            o = st.objs.get(s_.obj)
+            L = o.attrs.get('cstr_len') if o is not None else None
+            if L is not None:
+                # the start must lie inside the text (reading begins at s)
+                chk = self.access_check(st, inst, 'strto', s_, o.attrs.get('cstr_eb', 1))
+                # the scan stops at or before the terminator
+                st.assume_ge0(L - s_.off - Lin.atom(j))
+                # a leading unit known to be a decimal digit is always consumed
+                a = ('load', s_.obj, s_.off, o.version, 8)
+                lo, hi = st.arange(a)
+                if a in st.rng and lo >= 0x30 and hi <= 0x39:
+                    st.assume_ge0(Lin.atom(j) - 1)
+            else:
+                st.ev('strto-unterminated?', inst, name, s_)
+            endv = PtrV(s_.obj, s_.off + Lin.atom(j), None)
+        else:
+            endv = self.fresh_ptr(st, 'end')
+        if isinstance(endp, PtrV) and self.ptr_nullness(st, endp) is not True:
+            self.store(st, inst, endp, endv, 8)
+        if name in ('strtod', 'strtof', 'strtold'):
+            return [(st, TopV('fp'))]
+        bits = int_bits(inst.ty) or 64
+        return [(st, self.fresh_int(st, bits, 'strto', signed=name in ('strtol', 'strtoll')))]
 
     def cstring(self, st, p):
         if isinstance(p, PtrV) and p.obj and p.obj.startswith('G:') and not p.off.t:
